@@ -25,6 +25,8 @@ CONTAINER_CTORS = {'set', 'list', 'dict', 'frozenset', 'tuple', 'sorted', 'rever
 ID_CASTS = {'State', 'Symbol', 'Variable', 'Terminal', 'Direction', 'nfaSymbol'}
 SKIP_MODULES = {'regexpParser', 'regexpLexer', 'regexp_simpleParser', 'regexp_simpleLexer', 'CFGParser', 'CFGLexer', 'regular_expressionsLexer', 'draw_sigma'}
 E = frozenset()
+# fields of the record classes that hold strings / ints (immutable values): reading them yields no object
+IMMUTABLE_FIELDS = {'q0', 'S', 'epsilon', 'blank', 'q_accept', 'q_reject', 'q_start', 'variable', 'symbol', 'index', 'q', 'state_regex', 'transition_regex', 'symbol_regex'}
 
 
 def max_depth(ann):
@@ -58,6 +60,7 @@ class Summary(object):
         self.stores = set()     # ((p, d), (q, d2)): an object of q at depth d2 may become stored in an object of p at depth d
         self.result = set()     # (param, depth) objects the result may be or contain; 'fresh' implied
         self.result_deep = False
+        self.result_fields = {}  # field -> (set of (param, path), has_fresh) when the result is a class instance
         self.unknown = []       # (line, what)
         self.aliased = []       # (line, name, other)
         self.done = False
@@ -119,15 +122,17 @@ class FnAnalysis(object):
         self.local_fns = {}; self.depths = {}
 
     # ---- abstract heap
-    def elem(self, st, labels):
+    def elem(self, st, labels, field=None):
         out = set()
+        step = field if field is not None else '[]'
         for l in labels:
             if l[0] == 'arg':
-                p, d = l[1], l[2]; md = self.depths.get(p, '*')
-                if d == '*' or md == '*': out.add(('arg', p, '*'))
-                elif d < md: out.add(('arg', p, d + 1))
+                p, path = l[1], l[2]; md = self.depths.get(p, '*')
+                if path == '*' or md == '*': out.add(('arg', p, '*'))
+                elif len(path) < md and step not in IMMUTABLE_FIELDS: out.add(('arg', p, path + (step,)))
                 out |= st.H.get(l, E)
             elif l[0] == 'deep': out.add(l)
+            elif field is not None and (l, field) in st.H: out |= st.H[(l, field)]
             else: out |= st.H.get(l, E)
         return frozenset(out)
 
@@ -143,7 +148,7 @@ class FnAnalysis(object):
         st.H[lab] = frozenset(contents)
         return lab
 
-    def store(self, st, targets, values):
+    def store(self, st, targets, values, field=None):
         values = frozenset(values)
         if not values: return
         for t in targets:
@@ -151,6 +156,11 @@ class FnAnalysis(object):
                 for v in values:
                     if v[0] == 'arg': self.summ.stores.add(((t[1], t[2]), (v[1], v[2])))
             st.H[t] = st.H.get(t, E) | values
+            if field is None:
+                for k in list(st.H):
+                    if isinstance(k, tuple) and len(k) == 2 and k[0] == t and isinstance(k[1], str): st.H[k] = st.H[k] | values
+            else:
+                st.H[(t, field)] = st.H.get((t, field), E) | values
 
     def mutation(self, st, labels, line, name, toplevel=True, base=None):
         for l in labels:
@@ -176,12 +186,20 @@ class FnAnalysis(object):
             md = max_depth(a.annotation)
             if a.arg == 'self': md = '*'
             self.depths[a.arg] = md
-            st.env[a.arg] = E if md is None else frozenset([('arg', a.arg, 0)])
+            st.env[a.arg] = E if md is None else frozenset([('arg', a.arg, ())])
         self.summ.depths = dict(self.depths)
         self.ret = E
         self.block(st, self.fd.body)
         for l in self.ret:
             if l[0] == 'arg': self.summ.result.add((l[1], l[2]))
+        fin = getattr(self, 'final', None)
+        if fin is not None:
+            for l in self.ret:
+                for k, v in fin.H.items():
+                    if isinstance(k, tuple) and len(k) == 2 and k[0] == l and isinstance(k[1], str):
+                        a, fr = self.summ.result_fields.get(k[1], (set(), False))
+                        a |= {(x[1], x[2]) for x in v if x[0] == 'arg'}
+                        self.summ.result_fields[k[1]] = (a, fr or any(x[0] != 'arg' for x in v))
         # closure of result under contents
         seen = set(self.ret); todo = list(self.ret)
         while todo:
@@ -292,7 +310,7 @@ class FnAnalysis(object):
         elif isinstance(tg, (ast.Subscript, ast.Attribute)):
             bv = self.ev(st, tg.value)
             self.mutation(st, bv, s.lineno, self.name_of(tg.value))
-            self.store(st, bv, v)
+            self.store(st, bv, v, tg.attr if isinstance(tg, ast.Attribute) else None)
         else: self.summ.unknown.append((s.lineno, 'assignment target'))
 
     def bind(self, st, tg, v):
@@ -312,7 +330,7 @@ class FnAnalysis(object):
         if t == 'Lambda': return frozenset([self.alloc(st, e, E, 'lambda')])
         if t == 'Attribute':
             if isinstance(e.value, ast.Name) and e.value.id == 'GambaTools': return E
-            return self.elem(st, self.ev(st, e.value))
+            return self.elem(st, self.ev(st, e.value), e.attr)
         if t == 'Subscript':
             b = self.ev(st, e.value); self.ev(st, e.slice)
             if isinstance(e.slice, ast.Slice): return frozenset([self.alloc(st, e, self.elem(st, b))])
@@ -431,7 +449,9 @@ class FnAnalysis(object):
                         if p != 'self' and p in s.params:
                             idx = s.params.index(p) - 1
                             if 0 <= idx < len(args): self.mutation(st, self.descend(st, args[idx], d), e.lineno, '<arg %s of %s>' % (p, n), toplevel=False)
-                return frozenset([self.alloc(st, e, allargs, n)])
+                l = self.alloc(st, e, allargs, n)
+                for fld, v in self.field_init(st, n, args, kw, e).items(): st.H[(l, fld)] = v
+                return frozenset([l])
             if n in self.an.funcs: return self.apply_summary(st, n, e, args, kw, None)
             if n in st.env and isinstance(st.env[n], frozenset) and st.env[n]:
                 # calling a parameter / local that holds a function object (predicate, parser): assume it is pure on its arguments
@@ -442,15 +462,34 @@ class FnAnalysis(object):
         self.summ.unknown.append((e.lineno, 'call form'))
         return frozenset([self.alloc(st, e, allargs)])
 
-    def descend(self, st, labels, d):
-        if d == '*':
+    def field_init(self, st, cls, args, kw, e):
+        """fields of a new instance of cls from the `self.f = <expr>` statements of its __init__"""
+        init = self.an.funcs.get(cls + '.__init__')
+        if init is None: return {}
+        fd = init[1]; params = [a.arg for a in fd.args.args][1:]
+        binding = dict(zip(params, args)); binding.update(kw)
+        out = {}
+        for s_ in fd.body:
+            if isinstance(s_, ast.Assign) and len(s_.targets) == 1 and isinstance(s_.targets[0], ast.Attribute) \
+                    and isinstance(s_.targets[0].value, ast.Name) and s_.targets[0].value.id == 'self':
+                f_ = s_.targets[0].attr; v = s_.value
+                if isinstance(v, ast.Name): out[f_] = binding.get(v.id, E)
+                else:
+                    c = E
+                    for nm in ast.walk(v):
+                        if isinstance(nm, ast.Name) and nm.id in binding: c |= self.elem(st, binding[nm.id])
+                    out[f_] = frozenset([self.alloc(st, s_, c, 'field')]) if c or isinstance(v, (ast.Subscript, ast.Call, ast.List, ast.Set, ast.Dict)) else E
+        return out
+
+    def descend(self, st, labels, path):
+        if path == '*':
             out = set(labels); todo = list(labels)
             while todo:
                 for x in self.elem(st, [todo.pop()]):
                     if x not in out: out.add(x); todo.append(x)
             return frozenset(out)
         cur = frozenset(labels)
-        for _ in range(d): cur = self.elem(st, cur)
+        for step in path: cur = self.elem(st, cur, None if step == '[]' else step)
         return cur
 
     def inline(self, st, fd, args, kw, e):
@@ -495,7 +534,16 @@ class FnAnalysis(object):
         for (p, d) in s.result:
             if p in binding: c |= inst(p, d)
         l = self.alloc(st, e, c)
-        return frozenset([l]) | c
+        for f_, (labs, fr) in s.result_fields.items():
+            v = E
+            for (p, d) in labs:
+                if p in binding: v |= inst(p, d)
+            if fr:
+                class _N: pass
+                dn = _N(); dn.lineno, dn.col_offset = e.lineno, e.col_offset + 20000 + (hash(f_) % 9973)
+                v |= frozenset([self.alloc(st, dn, E, 'field')])
+            st.H[(l, f_)] = v
+        return frozenset([l]) | (c if not s.result_fields else frozenset(x for x in c if any(x in self.descend(st, binding.get(p, E), d) for (p, d) in s.result if d == ())))
 
 
 def analyze(src_root, names):
